@@ -99,6 +99,7 @@ type world struct {
 
 	sectorSeq  uint64
 	localAbort bool
+	hadUpdate  bool
 	cleanup   []func()
 }
 
